@@ -82,7 +82,7 @@ func runC09(c *Ctx) {
 		maxPat, maxPath = 4, 5
 	}
 	c.Exhaustive = true
-	c.Rule = fmt.Sprintf("all patterns of the segment grammar (literal | placeholder | trailing /*) with <= %d segments over {a, b, empty, id, x} x all paths with <= %d segments over {a, b, 1, empty} (plus query strings for keyMatch5), for keyMatch2/3/4/5 and keyGet2/3, against the Lean model (rendered pattern text) and the Lean segment semantics (bounded-exhaustive); raw pattern strings over {/ a : { } * ? .} for the boundary of the modelled regex fragment; keyMatch/keyGet over all short strings; random IPv4 and IPv6 addresses/CIDRs incl. boundary prefix lengths and malformed text; non-trivial = a pattern with a placeholder or wildcard on which some path matches and some does not; distinct = (function, pattern)", maxPat, maxPath)
+	c.Rule = fmt.Sprintf("all patterns of the segment grammar (literal | placeholder | trailing /*) with <= %d segments over {a, b, empty, id, x} x all paths with <= %d segments over {a, b, 1, empty} (plus query strings for keyMatch5), for keyMatch2/3/4/5 and keyGet2/3 (after regexMatch has been called on every pattern text and on its regex translation: the answers must not depend on what was called before), against the Lean model (rendered pattern text) and the Lean segment semantics (bounded-exhaustive); raw pattern strings over {/ a : { } * ? .} for the boundary of the modelled regex fragment; keyMatch/keyGet over all short strings; random IPv4 and IPv6 addresses/CIDRs incl. boundary prefix lengths and malformed text; non-trivial = a pattern with a placeholder or wildcard on which some path matches and some does not; distinct = (function, pattern)", maxPat, maxPath)
 	segAlpha := []pseg{{false, "a"}, {false, "b"}, {false, ""}, {true, "id"}, {true, "x"}}
 	var patterns [][]pseg
 	var recP func(cur []pseg)
@@ -111,6 +111,23 @@ func runC09(c *Ctx) {
 	recQ("", 0)
 	paths = append(paths, "a", "a/b", "/a?x=1", "/a/1?q=/b", "/a/b\n", "/a/\nb")
 	fns := []struct{ fn, style string }{{"keyMatch2", "colon"}, {"keyMatch3", "brace"}, {"keyMatch4", "brace"}, {"keyMatch5", "brace"}, {"keyGet2", "colon"}, {"keyGet3", "brace"}}
+	// "pure functions of their arguments": whatever other built-ins were called before must not matter.
+	// regexMatch is called first on every pattern text and on the regular expression each pattern
+	// translates to (a process-wide cache shared between built-ins would now hold an un-anchored entry)
+	for _, f := range fns {
+		for _, segs := range patterns {
+			for _, wild := range []bool{false, true} {
+				text := renderPat(f.style, segs, wild)
+				func() {
+					defer func() { _ = recover() }()
+					_ = util.RegexMatch("zz", text)
+					_ = util.RegexMatch("zz", strings.ReplaceAll(text, "/*", "/.*"))
+					_ = util.RegexMatch("zz", "^"+strings.ReplaceAll(text, "/*", "/.*")+"$")
+				}()
+			}
+		}
+	}
+	c.Count("regexMatch_precalls", 1)
 	for _, f := range fns {
 		for _, segs := range patterns {
 			for _, wild := range []bool{false, true} {
